@@ -1,0 +1,31 @@
+//go:build verif
+
+// Contracts for the govc verifier (/verif). Comment-only.
+
+package chain
+
+// C18: the worker of ConcurrentQueue hands every item received on chanIn to
+// chanOut in order, each once: at every point of its loop the items already
+// sent are a prefix of the items received, and the overflow list holds exactly
+// the received items not yet sent, in order. `select` is modelled with every
+// case enabled, so the invariant holds for every scheduler choice.
+//@ macro Q_IN() = cq.chanIn
+//@ macro Q_OUT() = cq.chanOut
+//@ macro Q_HEAD() = select(lHead, cq.overflow)
+//@ macro Q_TAIL() = select(lTail, cq.overflow)
+//@ macro FIFO_COUNT() = (sendN(Q_OUT()) + (Q_TAIL() - Q_HEAD()) == recvN(Q_IN()) && Q_HEAD() <= Q_TAIL())
+//@ macro FIFO_SENT() = (forall j Int :: {sendAt(Q_OUT(), j)} 0 <= j && j < sendN(Q_OUT()) ==> sendAt(Q_OUT(), j) == recvAt(Q_IN(), j))
+//@ macro FIFO_QUEUED() = (forall i Int :: {select(select(lSeq, cq.overflow), i)} Q_HEAD() <= i && i < Q_TAIL() ==>
+//@     select(select(lSeq, cq.overflow), i) == recvAt(Q_IN(), sendN(Q_OUT()) + (i - Q_HEAD())))
+
+//@ func (*ConcurrentQueue).Start$1()
+//@   property C18
+//@   replay chain_queue.go
+//@   requires wf: cq != nil && cq.overflow != nil && cq.chanIn != cq.chanOut
+//@   requires fresh_queue: FIFO_COUNT() && FIFO_SENT() && FIFO_QUEUED()
+//@   invariant 1 same_queue: cq == old(cq) && cq.overflow == old(cq.overflow) && cq.chanIn == old(cq.chanIn) && cq.chanOut == old(cq.chanOut) && cq.chanIn != cq.chanOut
+//@   invariant 1 fifo_count: FIFO_COUNT()
+//@   invariant 1 fifo_sent: FIFO_SENT()
+//@   invariant 1 fifo_queued: FIFO_QUEUED()
+//@   ensures fifo_sent: FIFO_SENT()
+//@   ensures fifo_queued: FIFO_QUEUED()
